@@ -304,7 +304,8 @@ def run(ctx):
     # either written out as that number (and size_hint defers to it) or left to its provided default, which returns
     # size_hint's exact bound
     def is_remaining(r_):
-        return r_[0] == "bin" and r_[1] == "Sub" and r_[2][0] == "call" and r_[2][1] == PM + "PieceMoves::len" and r_[3] == ("cast", "usize", C)
+        # (the counter itself when it is kept as a usize, widened otherwise)
+        return r_[0] == "bin" and r_[1] == "Sub" and r_[2][0] == "call" and r_[2][1] == PM + "PieceMoves::len" and r_[3] in (("cast", "usize", C), C)
     XLEN = "<" + PM + "PieceMovesIter as core::iter::traits::exact_size::ExactSizeIterator>::len"
     xb = f.bodies.get(XLEN)
     own_len = False
